@@ -477,7 +477,7 @@ def run(spec):
         if diff is not None:
             res.add("again", "C09.A_B_A_differs", "simulate(A); simulate(B); simulate(A) differs from the first simulate(A) at %s: %r vs %r" % diff, None)
     else:
-        compared += run_history(spec, res, dref)
+        compared += run_history(spec, res, dref, model_intact)
     for (a, b, k) in m["deps"]:
         if k in (G.FF, G.SF) and m["tasks"][a]["work"] == m["tasks"][b]["work"]:
             res.count("same_step_zero_" + G.KIND_NAME[k])
@@ -486,7 +486,7 @@ def run(spec):
     return res
 
 
-def run_history(spec, res, dref):
+def run_history(spec, res, dref, intact=None):
     """API history on two projects in one process; afterwards a plain simulate of project 0 with the
     reference configuration must equal the reference, and process-global state must be unchanged."""
     g0 = globals_digest()
@@ -504,23 +504,31 @@ def run_history(spec, res, dref):
         p = ps[op["p"]]
         cfg = cfgs[op["p"]]
         kind = op["op"]
+        o_ = None
         if kind == "sim_defaults":
             res.count("history_default_args_call")
-            D.call(lambda: p.simulate(max_time=cfg["max_time"]), D.Recorder(p, want_snap=False))
+            o_ = D.call(lambda: p.simulate(max_time=cfg["max_time"]), D.Recorder(p, want_snap=False))
         elif kind == "sim":
-            scen.simulate(p, cfg, want_snap=False)
+            o_ = scen.simulate(p, cfg, want_snap=False)[1]
         elif kind == "insert":
             res.count("history_insert_absence")
             if len(p.cost_list) > 0:
-                D.call(lambda: p.insert_absence_time_list(list(op["steps"])))
+                o_ = D.call(lambda: p.insert_absence_time_list(list(op["steps"])))
         elif kind == "remove":
             if len(p.cost_list) > 0:
-                D.call(lambda: p.remove_absence_time_list())
+                o_ = D.call(lambda: p.remove_absence_time_list())
         elif kind == "backward":
-            scen.simulate(p, cfg, want_snap=False, backward={"due": op["due"], "reverse": op["reverse"]})
+            o_ = scen.simulate(p, cfg, want_snap=False, backward={"due": op["due"], "reverse": op["reverse"]})[1]
         elif kind == "backward_defaults":
             res.count("history_default_args_call")
-            D.call(lambda: p.backward_simulate(max_time=cfg["max_time"]), D.Recorder(p, want_snap=False))
+            o_ = D.call(lambda: p.backward_simulate(max_time=cfg["max_time"]), D.Recorder(p, want_snap=False))
+        if o_ is not None and o_.exc_type == "SutHang":
+            # the first call on each project returned; a later call that never returns is behaviour changed by the history
+            res.add("history", "C09.call_after_history_does_not_terminate." + kind,
+                    "op %s of the history %s on project %d did not return (%s)" % (op, spec["ops"], op["p"], o_.where), None)
+            return 1
+        if intact is not None and op["p"] == 0 and o_ is not None and o_.ok:
+            intact(p, "after op %s of a history" % kind)
         g = globals_digest()
         if g != g0:
             res.add("global", "C09.global_state_changed_by." + kind,
